@@ -56,7 +56,8 @@ ObsOK ==
 
 Consume(e) == l <= Len(Trace) /\ timed = 1 /\ Ev.ev = e /\ UNCHANGED l /\ timed' = 2
 (* the observation recorded with the line holds after the operation and the asynchronous steps that followed it *)
-TObserve == /\ l <= Len(Trace) /\ timed = 2 /\ (Ev.ev = "HC" \/ ObsOK) /\ l' = l + 1 /\ timed' = 0 /\ UNCHANGED vars
+\* (Pool.Do / Pool.Ping are one call of the library: the trace shows their three steps, the pool is observed after the last)
+TObserve == /\ l <= Len(Trace) /\ timed = 2 /\ (Ev.ev = "HC" \/ "composite" \in DOMAIN Ev \/ ObsOK) /\ l' = l + 1 /\ timed' = 0 /\ UNCHANGED vars
 
 Outcome(how) == IF how = "ping" THEN "ok" ELSE how
 ErrOf(u, how) == IF clientClosed[cur[u]] THEN "closed"
